@@ -171,13 +171,22 @@ def evaluate(pid, mod, items, tag):
     # an output far larger than anything the unchanged tree produces (a value that grows from call to call, say) is
     # not given to Coq: it counts as a disagreement with the model straight away
     lits = []
+    big = []
     for idx, (i, o) in enumerate(items):
         lit = mod.to_coq(i, o)
         if len(lit) > MAX_CASE_LITERAL:
-            mf.append(idx)
-            OVERSIZE.append(idx)
+            big.append(idx)
             lit = None
         lits.append(lit)
+    # the unchanged tree produces a literal of that size once in a few thousand thorough-tier programs (long runs,
+    # many derived values); those few are set aside and counted in the evidence.  Outputs that are oversize as a rule
+    # (more than OVERSIZE_RATE of a pass of at least 50 inputs, or a single input that is replayed / shrunk) are a
+    # disagreement
+    if big and (len(items) < 50 or len(big) > OVERSIZE_RATE * len(items)):
+        mf += big
+        OVERSIZE.extend(big)
+    else:
+        OVERSIZE_SKIPPED.extend(big)
     for k in range(0, len(items), shard):
         chunk = [(k + j, l) for j, l in enumerate(lits[k:k + shard]) if l is not None]
         if not chunk:
@@ -207,8 +216,11 @@ def evaluate(pid, mod, items, tag):
     return sorted(mf), sorted(sf)
 
 
-MAX_CASE_LITERAL = 400000     # characters of one case's Coq literal (the largest on the unchanged tree: ~60000)
+MAX_CASE_LITERAL = 1500000    # characters of one case's Coq literal (quick tier on the unchanged tree: up to ~60000;
+                              # thorough-tier C13 programs over long runs: 3 of 6010 above 400000, the largest 443000)
+OVERSIZE_RATE = 0.005
 OVERSIZE = []
+OVERSIZE_SKIPPED = []
 EVAL_ERRORS = []
 CASE_TIMEOUT = {"quick": 400, "thorough": 2400}
 
@@ -537,6 +549,9 @@ def run_check(pid, mod, tier, seed, t0):
         log("[correspondence] " + corr_error)
     if OVERSIZE:
         notes.append("%d outputs were too large to be given to Coq and count as disagreements" % len(OVERSIZE))
+    if OVERSIZE_SKIPPED:
+        notes.append("%d outputs (under %.1f%% of their pass) had a Coq literal above %d characters and were set aside, "
+                     "not judged" % (len(OVERSIZE_SKIPPED), 100 * OVERSIZE_RATE, MAX_CASE_LITERAL))
 
     # 4. verdict
     for fam, (inp, out) in sorted(known_seen.items()):
